@@ -609,9 +609,9 @@ def r6_duration(ctx):
     ctx.floor('paths of calculate_duration', n, 2)
 
 
-def r7_busy_formula(ctx):
+def r7_busy_formula(ctx, rule='C07.R7'):
     """shape of the transmission time: size*8/bitrate computed in floating point from the unscaled operands"""
-    ctx.set_rule('C07.R7')
+    ctx.set_rule(rule)
     f = ctx.anchor(CH + 'ChannelMetrics::calculate_busy')
     if not f:
         return
